@@ -21,7 +21,7 @@ edzed = seams.install()
 
 PROP = 'C04'
 LEVEL = 'exploration'
-RUNS = {'quick': 6000, 'thorough': 150000}
+RUNS = {'quick': 40000, 'thorough': 800000}
 CHUNK = 250
 RULE = ("one run = 1-3 timed blocks (generated timed FSM / Timer / InputExp) driven by 2-12 "
         "external events placed before, in the same instant as, or after predicted expirations, "
